@@ -57,6 +57,7 @@ type wstate struct {
 	chain    [maxChain]fiber.Handler
 	// registration -> route objects created / merged into, per method stack
 	rt [maxLen][nMeth]*fiber.Route
+	mg [maxLen][nMeth]*fiber.Route // the EARLIER route object into whose handler list (part of) this registration was merged, if any
 	hi [maxLen][nMeth]int
 	// reference results of the current (table, config), reused for both ctx kinds
 	ref      [][]refResult
@@ -211,7 +212,10 @@ func (ws *wstate) registerRange(app *fiber.App, tbl []entry, from, to int) {
 		register(app, e, ws.handlersOf(i, e))
 		st = app.Stack()
 		for m := range st {
-			ws.rt[i][m], ws.hi[i][m] = nil, 0
+			ws.rt[i][m], ws.hi[i][m], ws.mg[i][m] = nil, 0, nil
+			if lens[m] > 0 && len(st[m]) >= lens[m] && len(st[m][lens[m]-1].Handlers) > hcs[m] {
+				ws.mg[i][m] = st[m][lens[m]-1]
+			}
 			switch l := len(st[m]); {
 			case l > lens[m]:
 				if l-lens[m] > kindUnits(e.kind) {
@@ -225,7 +229,7 @@ func (ws *wstate) registerRange(app *fiber.App, tbl []entry, from, to int) {
 			}
 		}
 		for m := len(st); m < nMeth; m++ {
-			ws.rt[i][m], ws.hi[i][m] = nil, 0
+			ws.rt[i][m], ws.hi[i][m], ws.mg[i][m] = nil, 0, nil
 		}
 	}
 }
